@@ -31,7 +31,7 @@ META = {
 
 META['explanation'] += ' ' + 'R8: no function on the parse side reaches itself through calls. R9: evaluation steps of the string array parser grow by equal amounts for equal growth of the input (items, separator runs, blank runs).'
 
-META['explanation'] += ' ' + 'R10: no function changes a container bound at module level. R11: a buffer that is parsed inside a loop and re-bound there is re-bound to a suffix of itself.'
+META['explanation'] += ' ' + 'R10: no function changes a container bound at module level. R11: a buffer that is parsed inside a loop and re-bound there is re-bound to a suffix of itself. R12: no loop re-assigns a growing value through a property setter that walks it.'
 
 
 def contained_classes(ctx, c):
@@ -289,6 +289,7 @@ def check(ctx, report):
     stateless_parsing(ctx, report)
     module_level_state(ctx, report)
     reparsed_buffers(ctx, report)
+    revalidating_setters(ctx, report)
     linear_scans_in_loops(ctx, report)
     parser_construction(ctx, report)
     report.floor('C19.R4', 60, 'loop/item obligations')
@@ -635,6 +636,59 @@ def rooted_returning_methods(model):
             if isinstance(n, ast.Return) and n.value is not None and isinstance(n.value, (ast.Attribute, ast.Subscript)) and class_rooted(n.value, f, model, ()):
                 out.add(f.name)
     return out
+
+
+def revalidating_setters(ctx, report, RULE='C19.R12'):
+    """A property setter that walks the value it is given (validates every member of a list) is written to be called once.  A loop
+    that grows such an attribute by re-assigning it - ``tag.subtags += [item]``, ``obj.items = obj.items + [x]`` - calls the setter
+    with the whole list on every pass: item k pays for the k - 1 before it, the work is quadratic in the number of items although
+    every line looks linear.  Every assignment inside a loop whose target is an attribute that some class of the package defines
+    as a property with a looping setter, and whose value is built from the same attribute, is reported."""
+    model = ctx.model
+    report.rule(RULE, 'no loop grows an attribute by re-assigning it through a property setter that walks the whole value')
+    looping = {}
+    for c in model.repo_classes():
+        for name, g in c.methods.items():
+            if not name.endswith('.setter'):
+                continue
+            params = [a.arg for a in g.node.args.args]
+            if len(params) < 2:
+                continue
+            walks = any(isinstance(n, (ast.For, ast.comprehension)) and any(isinstance(y, ast.Name) and y.id == params[1] for y in ast.walk(n.iter))
+                        for n in ast.walk(g.node))
+            if walks:
+                looping.setdefault(name[:-len('.setter')], []).append(g)
+    n = 0
+    for f in model.functions():
+        if f.module.external:
+            continue
+        for loop in ast.walk(f.node):
+            if not isinstance(loop, (ast.For, ast.While)):
+                continue
+            for st in ast.walk(loop):
+                target = value = None
+                if isinstance(st, ast.AugAssign) and isinstance(st.target, ast.Attribute):
+                    target, value = st.target, None
+                elif isinstance(st, ast.Assign) and len(st.targets) == 1 and isinstance(st.targets[0], ast.Attribute):
+                    target, value = st.targets[0], st.value
+                if target is None:
+                    continue
+                n += 1
+                if target.attr not in looping:
+                    continue
+                if value is not None and ast.unparse(target) not in ast.unparse(value):
+                    continue        # a fresh value per pass, not the grown one
+                if isinstance(target.value, ast.Name) and target.value.id == 'self' and f.cls is not None and \
+                        f.cls.resolve(target.attr + '.setter') is None:
+                    continue
+                g = looping[target.attr][0]
+                report.add(RULE, '%s@regrown[%s]' % (f.construct, ast.unparse(target)[:40]),
+                           '%s is re-assigned with its grown value on every pass of a loop; its setter (%s) walks the whole value each time: '
+                           'the work grows with the square of the number of items' % (ast.unparse(target), g.construct))
+    report.count(RULE, n + len(looping))
+    report.sample({'rule': RULE, 'setters_that_walk_their_value': sorted(looping), 'attribute_assignments_inside_loops': n})
+    if not looping:
+        report.error('%s: no property setter that walks its value found (anchor moved)' % RULE)
 
 
 def reparsed_buffers(ctx, report, RULE='C19.R11'):
